@@ -286,3 +286,22 @@ def memo_frame(timeout_ms=None):
         rep.add(f"{q}#C10.frame.no-global-writes", "unsat" if not glob else "sat", 0.0, "ast-frame", model={"global": glob} if glob else None)
     rep.functions["frame:uncompared-fields"] = {"hash": None, "mode": "dataclass fields excluded from ==/hash", "paths": 0, "cases": len(rs.unc), "fields": rs.unc}
     return rep
+
+
+# ---------------------------------------------------------------- C06 / C11 rendering (T-VER)
+def render_function(name, timeout_ms=None):
+    from pyvc import extract, verify
+    from pyvc.theories.version import VerTheory
+    from contracts import spec_render as C
+    ix = extract.Index()
+    th = VerTheory(ix)
+    contracts = C.all_contracts(th)
+    c = contracts[name]
+    real = {t: k for t, k in contracts.items() if hasattr(k, "ensures")}
+    use = [t for t in real if t != name]
+    if hasattr(c, "ensures"):
+        return verify.verify_function(ix, th, c, use_contracts=use, contracts=real, loop_specs=C.loop_specs(th), timeout_ms=timeout_ms)
+    rep = verify.verify_cases(ix, th, name, list(c.cases(th)), use_contracts=use, contracts=real, loop_specs=C.loop_specs(th), timeout_ms=timeout_ms)
+    rep.functions[name]["hash"] = ix.func(name).source_hash()
+    rep.functions[name]["mode"] = "verified against its contract"
+    return rep
